@@ -9,6 +9,8 @@ for f in sorted(glob.glob(os.path.join(VERIF, "seeded", "*", "meta.json"))):
     tgt = m["breaks_property"]
     rep = m["detection"].get(tgt, {}).get("report", "")
     kind = "concrete replay" if "no-failing-input-found" not in rep and m["target_property_caught"] else ("no-failing-input-found" if m["target_property_caught"] else "MISSED")
+    if not m["target_property_caught"] and m.get("not_reported_by_target_because"):
+        kind = "NOT REPORTED by the target check (reported by: " + (", ".join(m["caught_by"]) or "none") + ") — see the corrections log"
     if m.get("target_caught_at_first_run") is False and m["target_property_caught"]:
         kind += " (not at the first run — after the strengthening recorded in the corrections log)"
     first = re.sub(r"^[#*\s]+", "", first)
